@@ -16,7 +16,7 @@
 //! CBMC note: every decoding / key-construction path performs the same number of uf calls whatever the (symbolic) bytes are
 //!   (the public point of a scalar is derived before the range check is evaluated; decoding a point always evaluates
 //!   valid(X) and Y(c), whatever tag and length are), so the memo table's entry count stays concrete (units/README.md rule 3b).
-//! Model-only API (for harnesses): `model::in_range`, `NonZeroScalar::model_new_unchecked`.
+//! Model-only API (for harnesses): `model::in_range`, `model::stash/stashed`, `NonZeroScalar::model_new_unchecked`, `NonZeroScalar::model_bytes`.
 //! Scalars. `SecretKey::from_bytes/from_slice`, `SigningKey::from_bytes/from_slice`: EXACT range check 0 < d < n against
 //!   the constant group order (no uninterpreted validity bit); `from_slice` also accepts 24..47 bytes (left-padded) like the
 //!   real crate. `to_bytes` returns the 48 bytes given.
@@ -32,6 +32,7 @@
 //!   uninterpreted function of the two X coordinates (dh(a, pk(b)) == dh(b, pk(a)); the sign of either point is irrelevant,
 //!   as for the real x-coordinate ECDH); not assumed collision-free. Q = identity gives the all-zero secret.
 #![no_std]
+#![allow(static_mut_refs)]
 pub use generic_array;
 use generic_array::typenum::{U48, U96};
 use generic_array::GenericArray;
@@ -77,6 +78,17 @@ pub mod model {
     /// 0 < v < n (the exact check `SecretKey::from_bytes` performs)
     pub fn in_range(v: &[u8; 48]) -> bool {
         super::in_range(v)
+    }
+    static mut STASH: super::NonZeroScalar = super::NonZeroScalar { d: [0; 48], c: [0; 49] };
+    /// MODEL-ONLY (harness support): derive the key pair of `d` now and keep it, so that a harness-side replacement of
+    /// `SigningKey::from_bytes` can hand it out later WITHOUT model calls (used when an RNG failure may short-cut the code
+    /// under test before the derivation: the model-call count must be the same on both paths).
+    pub fn stash(d: &[u8; 48]) {
+        let s = super::NonZeroScalar::model_new_unchecked(d);
+        unsafe { STASH = s }
+    }
+    pub fn stashed() -> super::NonZeroScalar {
+        unsafe { STASH }
     }
 }
 fn y_of(c: &[u8; 49]) -> [u8; 48] {
@@ -396,6 +408,9 @@ impl NonZeroScalar {
     /// MODEL-ONLY constructor for harnesses: the caller has assumed `model::in_range(d)`; no range branch is taken.
     pub fn model_new_unchecked(d: &[u8; 48]) -> NonZeroScalar {
         NonZeroScalar { d: *d, c: derive(d) }
+    }
+    pub fn model_bytes(&self) -> [u8; 48] {
+        self.d
     }
 }
 fn scalar_from(bytes: &[u8; 48]) -> Option<NonZeroScalar> {
